@@ -161,7 +161,7 @@ func c06Shape(c *Ctx, m *Module, parse *ssa.Function) {
 			continue
 		}
 		p := newProver()
-		off := p.norm(cs.Common().Args[1])
+		off := p.norm(argsOf(cs)[1])
 		// expect hdrLen + hashOff + 4*i
 		hashOff := m.ConstVal("internal/counter", "hashOff")
 		okShape := false
